@@ -81,7 +81,7 @@ CLAIMED = {
         'Donnell quadratic terms (known finding); hand model of the pad/reshape/map/ravel/trim chunking with the theorem '
         'chunkedMap f = map f for every point list and every core count >= 1. Ties: V (summed increments vs running fuvw), driver '
         'for the chunking model, exact series/Donnell oracle vs Panel.uvw/strain/stress incl. 1..16 threads and assembly slices. '
-        'One defect repaired (Panel.stress ignored NLterms), one recorded (non-linear strain terms).',
+        'One defect repaired (Panel.stress ignored NLterms), one recorded (non-linear strain terms). Panel.stress: hand model (Model/Chunking.lean) with stress_eq_F_strain (resultants = laminate matrix x the strains of the SAME NLterms option), stress_nlterms_forwarded, stress_requires_laminate, stress_linear_eq_F_donnell on the regenerated strain kernel.',
    note='As C02; the def-level wrappers of the two field modules (pad / reshape / prange / ravel / trim, argument plumbing) are additionally read from the '
         'source text and executed (tools/cyexec.py) against the binary on every run; OpenMP scheduling/races outside the model (bit-identical outputs across core counts required as supporting evidence); '
         'stress = F*strain checked numerically; conical panels rejected by fstrain.',
@@ -94,7 +94,7 @@ CLAIMED = {
         'is positive semi-definite for kt, kr >= 0 over the reals (any finite family of dofs of the two panels). V: IR of every block vs the running kernels; '
         'implementation arm: mismatch-energy oracle vs PanelAssembly.get_k0_conn for both panel orders, symmetry, PSD; calc_kt_kr '
         'symmetric/linear; calc_kt_kr itself has a hand model (Model/PenaltyConstants.lean) with theorems kt_kr_symmetric_* / kt_kr_corner_swap / '
-        'kt_kr_linear_in_moduli / kt_kr_positive and a driver correspondence against penalty_constants.py; model arm of the search: translated block kernels placed and mirrored like get_k0_conn vs the oracle (source as written). A genuine defect (coupling block dropped when p1 follows p2) was repaired.',
+        'kt_kr_linear_in_moduli / kt_kr_positive and a driver correspondence against penalty_constants.py; model arm of the search: translated block kernels placed and mirrored like get_k0_conn vs the oracle (source as written). A genuine defect (coupling block dropped when p1 follows p2) was repaired. Assembled matrix: Model/ConnLoop.lean models the loop nests of the 15 kernels (tied to what the translator reads by nest_tie); get_k0_conn_psd(_ssy/_ssx/_bfy/_bfx/_sb/_all): the finalized matrix get_k0_conn places (either order of the two panels, any number of connections) is positive semi-definite.',
    note='As C02; interface length/footprint shared by both panels (as the kernels assume); get_k0_conn glue checked by oracle on '
         'explored assemblies; kCLTxycte has no kernel module in the tree.',
    technique='Lean 4 proof over regenerated model + translation validation + energy oracle', ref='4/C12'),
@@ -180,7 +180,7 @@ CLAIMED = {
         'point and, by a list-sum derivative lemma, for the WHOLE quadrature sum over any list of integration points (each with its own basis '
         'values, weight, laminate and state); the tangent integrand kL + kG is symmetric at every state (transposed position = same value). '
         'V: pieces driven through Gauss-Legendre vs the running kernels; implementation arm: symmetry, fint(0)=0, kT(0)=k0, kT.dc vs the exact '
-        '5-point derivative of the cubic fint, assemblies with connections. One defect repaired (assembly calc_fint raised).',
+        '5-point derivative of the cubic fint, assemblies with connections. One defect repaired (assembly calc_fint raised). ASSEMBLY LEVEL (Spec/AssemblyJacobian.lean on the existing Model/Assembly.lean): assembly_tangent_is_jacobian - for any panels, connection list, state and direction, if each panel tangent is the derivative of its internal force on its own slice then placed tangents + finalized connection matrix is the derivative of placed forces + K_conn c (HasDerivAt), instantiated with the panel Gauss-sum theorems (assembly_tangent_is_jacobian_gauss); assembly_tangent_symm (no hypothesis), assembly_fint_zero, assembly_fint_linear_part.',
    note='As C02; Gauss loops / laminate-table switch / COO book-keeping checked as schema + numerically (V), not proved; exactness of the rule is C10; '
         'that the running loop accumulates exactly the modelled per-point terms is the V tie.',
    technique='Lean 4 proof (ring identities, HasDerivAt) over regenerated model + translation validation + exact finite-difference oracle', ref='4/C08'),
